@@ -41,6 +41,12 @@ def run_case(ctx, rng, idx):
         ctx.event("exhaustive-4-node-hypergraph")
         undirected_eval(ctx, rng, idx, h)
         return
+    if idx == 1 or (ctx.tier == "thorough" and idx % 700 == 9):
+        from ..gen import big_hypergraph
+
+        ctx.event("big-hypergraph")
+        undirected_eval(ctx, rng, idx, big_hypergraph(rng, sizes=(1, 2, 2, 3, 4, 5), n=rng.randint(30, 50), m=rng.randint(80, 160)))
+        return
     if idx % 4 == 3:
         return directed_case(ctx, rng, idx)
     from hypergraphx.representations import projections as pr
@@ -70,7 +76,7 @@ def undirected_eval(ctx, rng, idx, h):
     edges = list(S.edges)
 
     def wit(extra=None):
-        return {"object": S.describe(), "extra": repr(extra)[:700]}
+        return {"object": S.describe() if len(S.edges) <= 30 else {"nodes": len(S.nodes), "edges": len(S.edges)}, "extra": repr(extra)[:700]}
 
     # ---- bipartite --------------------------------------------------------------------------
     r = call(pr.bipartite_projection, h)
